@@ -24,32 +24,53 @@
 #include "celt/rate.h"
 #include "opus_custom.h"
 
-enum { K_BIT, K_UINT, K_BITS, K_ICDF, K_BIN, K_SHRINK };
+enum { K_BIT, K_UINT, K_BITS, K_ICDF, K_BIN, K_SHRINK, K_ENC };
 typedef struct {
    int kind; unsigned a, b, c;           /* bit: v,logp  uint: v,ft  bits: v,n  icdf: s,ftb  bin: fl,fh,bits  shrink: size */
    unsigned char tbl[32]; int tlen;
    long long dec; int has_dec;           /* decision value this call stands for */
-   int ph;                               /* 0: header, 1: inside clt_compute_allocation */
+   int ph;                               /* 0: header, 1: inside clt_compute_allocation, 2: behind it */
    unsigned rng0, val0; int nb0; unsigned offs0;   /* coder state before the call */
    unsigned rng1, val1; int nb1; unsigned offs1;   /* … and after */
+   unsigned eo0, ew0; int ne0; unsigned eo1, ew1; int ne1;   /* raw-bit end of the buffer: end_offs, end_window, nend_bits */
+   unsigned long long h0, h1;            /* carry state and the bytes written so far (behind the allocation only) */
+   int keep;
 } rop;
-#define MAXR 2048
+#define MAXR 16384
 static rop R[MAXR]; static int nR;
 static int in_frame, phase;              /* phase 0: header, 1: inside clt_compute_allocation, 2: after */
 static int in_coarse, in_laplace, lap_idx;
 static ec_enc *cur_enc;
-static long frames_out, frames_skipped, onebit_div;
+static long frames_out, frames_skipped, onebit_div, frames_unchained;
+static int frame_ok;
 
+/* what the packet holds so far: the carry buffer and every byte already written at either end.  Two trial encodings
+   of theta_rdo can reach the same rng/val/offs with different bytes behind them. */
+static unsigned long long content_hash(const ec_enc *e)
+{
+   unsigned long long h = 1469598103934665603ULL; opus_uint32 i;
+   h = (h ^ (unsigned)e->rem) * 1099511628211ULL; h = (h ^ e->ext) * 1099511628211ULL;
+   for (i = 0; i < e->offs; i++) h = (h ^ e->buf[i]) * 1099511628211ULL;
+   for (i = 0; i < e->end_offs; i++) h = (h ^ e->buf[e->storage - 1 - i]) * 1099511628211ULL;
+   return h;
+}
 static rop *rec(ec_enc *e, int kind, unsigned a, unsigned b, unsigned c)
 {
    rop *r;
-   if (!in_frame || phase == 2 || nR >= MAXR) return NULL;
+   if (!in_frame || phase == 3 || nR >= MAXR) return NULL;
    r = &R[nR++]; memset(r, 0, sizeof(*r));
    r->kind = kind; r->a = a; r->b = b; r->c = c; r->ph = phase;
    r->rng0 = e->rng; r->val0 = e->val; r->nb0 = e->nbits_total; r->offs0 = e->offs;
+   r->eo0 = e->end_offs; r->ew0 = (unsigned)e->end_window; r->ne0 = e->nend_bits;
+   if (phase == 2) r->h0 = content_hash(e);
    return r;
 }
-static void after(rop *r, ec_enc *e) { if (r) { r->rng1 = e->rng; r->val1 = e->val; r->nb1 = e->nbits_total; r->offs1 = e->offs; } }
+static void after(rop *r, ec_enc *e)
+{
+   if (r) { r->rng1 = e->rng; r->val1 = e->val; r->nb1 = e->nbits_total; r->offs1 = e->offs;
+            r->eo1 = e->end_offs; r->ew1 = (unsigned)e->end_window; r->ne1 = e->nend_bits;
+            if (r->ph == 2) r->h1 = content_hash(e); }
+}
 
 void __real_ec_enc_bit_logp(ec_enc *e, int val, unsigned logp);
 void __real_ec_enc_uint(ec_enc *e, opus_uint32 fl, opus_uint32 ft);
@@ -93,6 +114,31 @@ void __wrap_ec_encode_bin(ec_enc *e, unsigned fl, unsigned fh, unsigned bits)
    rop *r = rec(e, K_BIN, fl, fh, bits);
    if (r && in_laplace) lap_idx = nR - 1;
    __real_ec_encode_bin(e, fl, fh, bits); after(r, e);
+}
+void __real_ec_encode(ec_enc *e, unsigned fl, unsigned fh, unsigned ft);
+void __wrap_ec_encode(ec_enc *e, unsigned fl, unsigned fh, unsigned ft)
+{
+   /* only compute_theta (bands.c) reaches this from outside entenc.o: the step and the triangular PDF */
+   rop *r = rec(e, K_ENC, fl, fh, ft);
+   if (r) {
+      /* the quantised itheta the interval stands for */
+      r->has_dec = 1;
+      if (ft % 4 == 3) {                                   /* step: ft = 3*(x0+1) + x0 */
+         unsigned x0 = (ft - 3) / 4;
+         r->dec = fl < (x0 + 1) * 3 ? fl / 3 : x0 + 1 + (fl - (x0 + 1) * 3);
+      } else {                                             /* triangular: ft = (h+1)^2 */
+         unsigned h = 0, fs = fh - fl; while ((h + 1) * (h + 1) < ft) h++;
+         if (fs >= 1 && fl == (fs - 1) * fs / 2 && fs - 1 <= h) r->dec = fs - 1; else r->dec = 2 * h + 1 - fs;
+      }
+   }
+   __real_ec_encode(e, fl, fh, ft); after(r, e);
+}
+static ec_enc done_state; static int done_seen; static unsigned long long done_hash, f_hash;
+void __real_ec_enc_done(ec_enc *e);
+void __wrap_ec_enc_done(ec_enc *e)
+{
+   if (in_frame && phase == 2) { done_state = *e; done_hash = content_hash(e); done_seen = 1; phase = 3; }
+   __real_ec_enc_done(e);
 }
 void __wrap_ec_enc_shrink(ec_enc *e, opus_uint32 size)
 {
@@ -139,7 +185,7 @@ void __wrap_quant_coarse_energy(const CELTMode *m, int start, int end, int effEn
 
 /* ---- clt_compute_allocation */
 static int a_int, a_dual, a_prev, a_sbw, a_seen;
-static unsigned f_rng, f_val, f_offs, f_storage; static int f_nb;
+static unsigned f_rng, f_val, f_offs, f_storage, f_eo, f_ew; static int f_nb, f_ne;
 int __real_clt_compute_allocation(const CELTMode *m, int start, int end, const int *offsets, const int *cap, int alloc_trim, int *intensity, int *dual_stereo,
       opus_int32 total, opus_int32 *balance, int *pulses, int *ebits, int *fine_priority, int C, int LM, ec_ctx *ec, int encode, int prev, int signalBandwidth);
 int __wrap_clt_compute_allocation(const CELTMode *m, int start, int end, const int *offsets, const int *cap, int alloc_trim, int *intensity, int *dual_stereo,
@@ -149,7 +195,8 @@ int __wrap_clt_compute_allocation(const CELTMode *m, int start, int end, const i
    if (in_frame && encode && phase == 0) { a_int = *intensity; a_dual = *dual_stereo; a_prev = prev; a_sbw = signalBandwidth; a_seen = 1; phase = 1; cur_enc = ec; }
    cb = __real_clt_compute_allocation(m, start, end, offsets, cap, alloc_trim, intensity, dual_stereo, total, balance, pulses, ebits,
                                       fine_priority, C, LM, ec, encode, prev, signalBandwidth);
-   if (in_frame && encode && phase == 1) { phase = 2; f_rng = ec->rng; f_val = ec->val; f_nb = ec->nbits_total; f_offs = ec->offs; f_storage = ec->storage; }
+   if (in_frame && encode && phase == 1) { phase = 2; f_rng = ec->rng; f_val = ec->val; f_nb = ec->nbits_total; f_offs = ec->offs; f_storage = ec->storage;
+      f_eo = ec->end_offs; f_ew = (unsigned)ec->end_window; f_ne = ec->nend_bits; f_hash = content_hash(ec); }
    return cb;
 }
 
@@ -164,45 +211,81 @@ static void pr_op(const rop *r)
    case K_ICDF: printf("i%u/%u/", r->a, r->b); for (i = 0; i < r->tlen; i++) printf("%s%u", i ? "." : "", r->tbl[i]); break;
    case K_BIN: printf("e%u/%u/%u", r->a, r->b, r->c); break;
    case K_SHRINK: printf("s%u", r->a); break;
+   case K_ENC: printf("c%u/%u/%u", r->a, r->b, r->c); break;
    }
 }
 int __real_celt_encode_with_ec(CELTEncoder *st, const opus_res *pcm, int frame_size, unsigned char *compressed, int nbCompressedBytes, ec_enc *enc);
 int __wrap_celt_encode_with_ec(CELTEncoder *st, const opus_res *pcm, int frame_size, unsigned char *compressed, int nbCompressedBytes, ec_enc *enc)
 {
-   ec_enc e0; int ret, i, first_sym, npre = 0, vbr = 0, silence, size, skipped_sil_shrink = 0, ndec = 0;
+   ec_enc e0; int ret, i, first_sym, npre = 0, vbr = 0, silence, size, skipped_sil_shrink = 0, ndec = 0, nH, pass;
    unsigned fr, fv, fo, fs; int fn;
    if (enc == NULL || pcm == NULL) return __real_celt_encode_with_ec(st, pcm, frame_size, compressed, nbCompressedBytes, enc);
    e0 = *enc;
-   in_frame = 1; phase = 0; nR = 0; q_seen = a_seen = 0; cur_enc = enc;
+   in_frame = 1; phase = 0; nR = 0; q_seen = a_seen = 0; cur_enc = enc; done_seen = 0;
    ret = __real_celt_encode_with_ec(st, pcm, frame_size, compressed, nbCompressedBytes, enc);
    in_frame = 0;
-   if (!q_seen || !a_seen || phase != 2 || nR >= MAXR || nR == 0) { frames_skipped++; return ret; }
+   if (!q_seen || !a_seen || phase < 2 || nR >= MAXR || nR == 0) { frames_skipped++; return ret; }
+   for (nH = 0; nH < nR && R[nH].ph < 2; nH++) ;          /* header and allocation calls */
    /* pre-shrinks: before the first symbol */
-   for (first_sym = 0; first_sym < nR && R[first_sym].kind == K_SHRINK; first_sym++) ;
+   for (first_sym = 0; first_sym < nH && R[first_sym].kind == K_SHRINK; first_sym++) ;
    npre = first_sym;
    size = npre ? (int)R[npre - 1].a : (nbCompressedBytes < 1275 ? nbCompressedBytes : 1275);
-   for (i = first_sym; i < nR; i++) if (R[i].kind == K_SHRINK) vbr = 1;
-   silence = first_sym < nR && R[first_sym].kind == K_BIT && R[first_sym].b == 15 && R[first_sym].a == 1;
+   for (i = first_sym; i < nH; i++) if (R[i].kind == K_SHRINK) vbr = 1;
+   silence = first_sym < nH && R[first_sym].kind == K_BIT && R[first_sym].b == 15 && R[first_sym].a == 1;
    /* final state: after the last recorded call */
    fr = f_rng; fv = f_val; fn = f_nb; fo = f_offs; fs = f_storage;
-   printf("I cwrs hdrenc %d %d %d %d %d %d %u,%u,%u,%d,%d,%u,%u,%u,%u,%d,%d ", q_start, q_end, q_C, q_LM, vbr, size,
-          e0.storage, e0.end_offs, (unsigned)e0.end_window, e0.nend_bits, e0.nbits_total, e0.offs, e0.rng, e0.val, e0.ext, e0.rem, e0.error);
-   if (!npre) printf("-"); else for (i = 0; i < npre; i++) printf("%s%u", i ? "," : "", R[i].a);
-   printf(" ");
-   for (i = first_sym; i < nR; i++) {
-      if (R[i].ph != 0) continue;                     /* the allocation's own calls are not decisions of the header */
-      if (R[i].kind == K_SHRINK) {
-         if (silence && !skipped_sil_shrink) { skipped_sil_shrink = 1; continue; }     /* computed, not a decision */
-         printf("%s%u", ndec++ ? "," : "", R[i].a);
-      } else if (R[i].has_dec) printf("%s%lld", ndec++ ? "," : "", R[i].dec);
+   /* behind the allocation: keep the calls that are in the stream.  theta_rdo (bands.c) codes a band twice and restores
+      the coder in between / afterwards; walking back from the state ec_enc_done is entered with, a call is kept iff
+      its after-state is the before-state of the next kept one. */
+   frame_ok = 0;
+   if (done_seen && phase == 3) {
+      unsigned t_rng = done_state.rng, t_val = done_state.val, t_offs = done_state.offs, t_eo = done_state.end_offs,
+               t_ew = (unsigned)done_state.end_window;
+      int t_nb = done_state.nbits_total, t_ne = done_state.nend_bits;
+      unsigned long long t_h = done_hash;
+      for (i = nR - 1; i >= nH; i--) {
+         rop *r = &R[i];
+         r->keep = r->rng1 == t_rng && r->val1 == t_val && r->nb1 == t_nb && r->offs1 == t_offs && r->eo1 == t_eo &&
+                   r->ew1 == t_ew && r->ne1 == t_ne && r->h1 == t_h;
+         if (r->keep) { t_rng = r->rng0; t_val = r->val0; t_nb = r->nb0; t_offs = r->offs0; t_eo = r->eo0; t_ew = r->ew0; t_ne = r->ne0; t_h = r->h0; }
+      }
+      frame_ok = t_rng == f_rng && t_val == f_val && t_nb == f_nb && t_offs == f_offs && t_eo == f_eo && t_ew == f_ew && t_ne == f_ne && t_h == f_hash;
+      if (!frame_ok) frames_unchained++;
+      if (getenv("C17_DBG")) {                       /* every recorded call behind the allocation, '*' = kept */
+         printf("# all:");
+         for (i = nH; i < nR; i++) { printf(" %s", R[i].keep ? "*" : ""); pr_op(&R[i]); }
+         printf("\n");
+      }
    }
-   printf("%s%d,%d,%d,%d\n", ndec ? "," : "", a_int, a_dual, a_prev, a_sbw); fflush(stdout);
-   printf("O ops=");
-   if (first_sym == nR) printf("-");
-   for (i = first_sym; i < nR; i++) { if (i > first_sym) printf(","); pr_op(&R[i]); }
-   /* st=1: enc->storage equals nbCompressedBytes when the first symbol is written (hypothesis of celt_header_roundtrip);
-      the model computes it from the entry context and the pre-shrinks */
-   printf(" fin=%u,%u,%d,%u,%u st=1\n", fr, fv, fn, fo, fs);
+   for (pass = 0; pass < 2; pass++) {
+      /* pass 0: the header alone (hdrenc); pass 1: the whole frame (frameenc) */
+      if (pass == 1 && !frame_ok) break;
+      ndec = 0; skipped_sil_shrink = 0;
+      printf("I cwrs %s %d %d %d %d %d %d %u,%u,%u,%d,%d,%u,%u,%u,%u,%d,%d ", pass ? "frameenc" : "hdrenc", q_start, q_end, q_C, q_LM, vbr, size,
+             e0.storage, e0.end_offs, (unsigned)e0.end_window, e0.nend_bits, e0.nbits_total, e0.offs, e0.rng, e0.val, e0.ext, e0.rem, e0.error);
+      if (!npre) printf("-"); else for (i = 0; i < npre; i++) printf("%s%u", i ? "," : "", R[i].a);
+      printf(" ");
+      for (i = first_sym; i < nH; i++) {
+         if (R[i].ph != 0) continue;                     /* the allocation's own calls are not decisions of the header */
+         if (R[i].kind == K_SHRINK) {
+            if (silence && !skipped_sil_shrink) { skipped_sil_shrink = 1; continue; }     /* computed, not a decision */
+            printf("%s%u", ndec++ ? "," : "", R[i].a);
+         } else if (R[i].has_dec) printf("%s%lld", ndec++ ? "," : "", R[i].dec);
+      }
+      printf("%s%d,%d,%d,%d", ndec ? "," : "", a_int, a_dual, a_prev, a_sbw);
+      if (pass) for (i = nH; i < nR; i++) if (R[i].keep) printf(",%lld", R[i].dec);
+      printf("\n"); fflush(stdout);
+      printf("O ops=");
+      if (first_sym == nH && !(pass && nR > nH)) printf("-");
+      { int np = 0;
+        for (i = first_sym; i < nH; i++) { if (np++) printf(","); pr_op(&R[i]); }
+        if (pass) for (i = nH; i < nR; i++) if (R[i].keep) { if (np++) printf(","); pr_op(&R[i]); } }
+      /* st=1: enc->storage equals nbCompressedBytes when the first symbol is written (hypothesis of celt_header_roundtrip);
+         the model computes it from the entry context and the pre-shrinks */
+      if (!pass) printf(" fin=%u,%u,%d,%u,%u st=1\n", fr, fv, fn, fo, fs);
+      else printf(" fin=%u,%u,%d,%u,%u,%u,%u,%d\n", done_state.rng, done_state.val, done_state.nbits_total, done_state.offs,
+                  done_state.storage, done_state.end_offs, (unsigned)done_state.end_window, done_state.nend_bits);
+   }
    frames_out++;
    return ret;
 }
@@ -351,6 +434,6 @@ int main(int argc, char **argv)
       }
       opus_encoder_destroy(enc);
    }
-   printf("# %ld CELT encoder frames (celt_encode_with_ec calls incl. redundancy frames), %ld skipped\n", frames_out, frames_skipped);
+   printf("# %ld CELT encoder frames (celt_encode_with_ec calls incl. redundancy frames), %ld skipped, %ld with an unresolved call chain\n", frames_out, frames_skipped, frames_unchained);
    return 0;
 }
